@@ -1007,7 +1007,13 @@ func (g *c15Gen) emit(in c15In, class string) {
 	} else {
 		g.c.E.Count("side:client")
 	}
-	g.c.Do("conn", in)
+	impl := g.c.Do("conn", in)
+	if out, ok := impl.(c15Out); ok {
+		// which branches of the model this case reaches (evidence only)
+		for _, t := range c15Branches(&in, out.Units) {
+			g.c.E.Count(t)
+		}
+	}
 }
 
 // variants emits the exchange on both sides under a few partitions of the bytes into calls.
@@ -1177,12 +1183,22 @@ func runC15(c *gen.Ctx) error {
 		nWait = 10
 	}
 	for i := 0; i < nWait; i++ {
-		for k, fr := range [][]c15Frame{refused, goaway} {
+		// the retry timers fire while nothing is held back (only once: it costs a retryWait)
+		kinds := [][]c15Frame{refused, goaway}
+		if i == 0 {
+			kinds = append(kinds, c15Basic("td"))
+		}
+		for k, fr := range kinds {
 			_, _, ls := c15Build(fr)
 			server := (i+k)%2 == 1
 			calls := append(c15Calls(server, c15Runs(fr, ls), c15RandPart(r)), []any{"t"})
-			waits = append(waits, c15In{Server: server, Legal: true, Frames: fr, Calls: calls, Note: "wait"})
+			win := c15In{Server: server, Legal: true, Frames: fr, Calls: calls, Note: "wait"}
+			waits = append(waits, win)
 			c.E.Count("class:wait")
+			wq, wp, _ := c15Build(fr)
+			for _, t := range c15Branches(&win, map[string][]c15Unit{"q": c15Units(wq, true), "p": c15Units(wp, false)}) {
+				c.E.Count(t)
+			}
 		}
 	}
 	c.DoParallel("conn", waits, len(waits))
@@ -1252,6 +1268,10 @@ func c15Scenarios() []c15Scenario {
 			id(c15H("p", c15RespFields("404", "application/json", [2]string{"content-encoding", "zz"}), false), 1), id(c15D("p", []byte("{\"code\":5}"), true), 1))
 		add("connect-eos-"+tn, true, tail, id(c15H("q", c15ReqFields("t1", "application/connect+proto", "/svc.S/M"), false), 1), id(c15D("q", msg, true), 1),
 			id(c15H("p", c15RespFields("200", "application/connect+proto"), false), 1), id(c15D("p", append(append([]byte{}, msg...), c15Msg(2, []byte("{\"metadata\":{}}"))...), true), 1))
+		add("connect-unknown-encoding-"+tn, true, tail,
+			id(c15H("q", c15ReqFields("t1", "application/connect+proto", "/svc.S/M", [2]string{"connect-content-encoding", "zz"}), false), 1), id(c15D("q", msg, true), 1),
+			id(c15H("p", c15RespFields("200", "application/connect+proto", [2]string{"connect-content-encoding", "zz"}), false), 1),
+			id(c15D("p", append(append([]byte{}, msg...), c15Msg(2, []byte("{\"metadata\":{}}"))...), true), 1))
 		add("early-response-"+tn, true, tail, reqH("t1", false), respH, id(c15D("q", msg, false), 1), trailers, id(c15D("q", msg, true), 1))
 		// continuation
 		c1 := reqH("t1", true)
@@ -1272,6 +1292,10 @@ func c15Scenarios() []c15Scenario {
 		add("data-before-headers-then-headers-3-"+tn, true, tail, reqH("t1", true), id(c15D("p", []byte("abc"), false), 1), respH, id(c15D("p", msg, false), 1), trailers)
 		add("response-end-before-headers-"+tn, true, tail, reqH("t1", true), id(c15D("p", msg, true), 1))
 		add("same-name-twice-"+tn, true, tail, reqH("t1", false), id(reqH("t1", true), 3), respH, id(respH, 3), trailers, id(trailers, 3))
+		// two open streams with the same test name (not well-formed): the collector's branches "a
+		// retryable completion replaces the held one" and "a completion is dropped while one is held"
+		add("same-name-both-refused-"+tn, true, tail, reqH("t1", true), id(reqH("t1", true), 3), id(c15R("p", 7), 1), id(c15R("p", 7), 3))
+		add("same-name-refused-then-done-"+tn, true, tail, reqH("t1", true), id(reqH("t1", true), 3), id(c15R("p", 7), 1), id(respH, 3), id(trailers, 3))
 		add("data-after-end-"+tn, true, tail, reqH("t1", true), id(c15D("q", msg, true), 1), respH, trailers, id(c15D("p", msg, true), 1))
 		add("response-unknown-stream-"+tn, true, tail, id(respH, 7), reqH("t1", true), id(trailers, 9), respH, trailers)
 		add("stream-after-goaway-"+tn, true, tail, reqH("t1", true), c15Frame{D: "p", T: "G", Last: 1, Code: 0}, id(reqH("t2", true), 3), respH, trailers)
@@ -1286,6 +1310,10 @@ func c15Scenarios() []c15Scenario {
 	add("write-timeout", true, [][]any{{"w", 0, "timeout", "E3"}}, open...)
 	add("read-timeout-then-close", true, [][]any{{"r", 0, "timeout", "E4"}, {"c", "ok", ""}}, open...)
 	add("read-fail-then-close", true, [][]any{{"r", 0, "fail", "E5"}, {"c", "fail", "E6"}}, open...)
+	// ... and while none is open
+	idle := []c15Frame{reqH("t1", true), respH, trailers}
+	add("write-timeout-idle", true, [][]any{{"w", 0, "timeout", "E7"}}, idle...)
+	add("write-fail-idle-then-close", true, [][]any{{"w", 0, "fail", "E8"}, {"c", "ok", ""}}, idle...)
 	return out
 }
 
